@@ -28,10 +28,26 @@ def build(tier, seed, exclude):
                 err = AP.c16({shape!r}, {ch}, {k})
                 return T.fail(err) if err else True
             """, timeout=to)
+    for shape in ("wide", "forkjoin"):
+        for k in (1, 2):
+            g.cond(f"h_{shape}_k{k}_rerun", params, pre, f"""
+                err = AP.c16({shape!r}, {ch}, {k}, warm_rerun=True)
+                return T.fail(err) if err else True
+            """, timeout=to)
+    if "C16-nested-workflows-count-separately" not in exclude:
+        for k in (2, 3):
+            g.cond(f"h_nested_k{k}", params, pre, f"""
+                err = AP.c16("nested", {ch}, {k})
+                return T.fail(err) if err else True
+            """, timeout=to)
     g.cond("twin_c16", "c0: int", ["0 <= c0 < 2"], """
         err = AP.c16("indep", [T.real(c0)], 1)
         return False
     """, timeout=120, kind="twin")
+    g.witness("w_nested", """
+        err = AP.c16("nested", [0, 0, 0, 0, 0, 0], 2)
+        return T.fail(err) if err else True
+    """)
     g.witness("w_k2", """
         err = AP.c16("wide", [0, 0, 0, 0, 0, 0], 2)
         return T.fail(err) if err else True
